@@ -319,6 +319,7 @@ def run(P, R, tier):
                 ok = bool(checks) and C.every_path_passes(rn, C.EXIT, checks) and bool(g.tags.get('retry'))
                 R.check(ok, 'C19.c', g, c, 'after rm the path is re-checked and a survivor raises inside the retried helper',
                         'a removal that silently did not take effect is not detected (no exists re-check that raises after rm, or helper not retried)')
+    gate_sides(P, R, 'C19.b')
     # read-before-delete / read-dominates-write are shared with C10.b
     from rules import C10
     sub = type(R)(R.prop, R.tier)
@@ -334,6 +335,40 @@ def run(P, R, tier):
             k += 1
             R._add('C19.c', (o.path, o.site.split('::')[-1]), None, o.status, o.detail, construct=o.construct)
     R.floor('C19.c', 'read-before-destroy obligations', k, 2)
+
+
+def gate_sides(P, R, rule):
+    """The listing == expected gate of the sub-part reader compares two collections of paths that arrive in different orders (a directory listing has no
+    order; the expected list is in input-partition order, numeric): both sides are brought to the same order-free form - `sorted(...)` on both, or sets.
+    Comparing a sorted listing with the unsorted expected list fails for ever as soon as part10 sorts before part2."""
+    F = P.func('spatialpandas.dask', 'DaskGeoDataFrame.pack_partitions_to_parquet')
+    n = 0
+    for g in F.nested.values():
+        if not (any(astq.fs_call(c) in ('ls', 'listdir') for c in astq.own_calls(g)) and any(astq.is_call_to(P, g, c, P.find_func('spatialpandas.io.parquet', 'read_parquet')) for c in astq.own_calls(g))):
+            continue
+        for st in astq.own_nodes(g, ast.If):
+            t = st.test
+            if not (isinstance(t, ast.Compare) and len(t.ops) == 1 and isinstance(t.ops[0], (ast.NotEq, ast.Eq)) and any(isinstance(x, ast.Raise) for b in (st.body, st.orelse) for y in b for x in ast.walk(y))):
+                continue
+            sides = []
+            for sd in (t.left, t.comparators[0]):
+                e = astq.trace(g, sd) if isinstance(sd, ast.Name) else sd
+                if not isinstance(e, ast.AST):
+                    sides.append(('raw', norm(sd)))
+                    continue
+                fn = norm(e.func) if isinstance(e, ast.Call) else ''
+                kind = 'sorted' if fn == 'sorted' else 'set' if fn in ('set', 'frozenset') or isinstance(e, (ast.Set, ast.SetComp)) else 'raw'
+                sides.append((kind, norm(e)))
+            if not any('.ls(' in txt or '.listdir(' in txt for _, txt in sides) and not any(isinstance(sd, ast.Name) and any('.ls(' in norm(v[1]) for v in astq.assignments(g, sd.id) if v[0] == 'expr' and isinstance(v[1], ast.AST))
+                                                                                       for sd in (t.left, t.comparators[0])):
+                continue
+            n += 1
+            ok = sides[0][0] == sides[1][0] and sides[0][0] in ('sorted', 'set')
+            R.check(ok, rule, g, t, 'both sides of the listing == expected comparison are order-free in the same way (sorted / set)',
+                    f'`{norm(t)}` compares `{sides[0][1][:60]}` ({sides[0][0]}) with `{sides[1][1][:60]}` ({sides[1][0]}): a directory listing and the expected list do not share an order '
+                    '(part10 sorts before part2), so the check fails for ever for more than ten input partitions and the call ends with temp directories left behind',
+                    construct=f'{g.name}: gate sides normalised')
+    R.floor(rule, 'listing == expected gates', n, 1)
 
 
 def _stmt(node):
